@@ -968,6 +968,10 @@ parsec_list_nolock_chain_sort_mergesort(parsec_list_t *list,
                                  (parsec_list_item_t*)_TAIL(list));
     _HEAD(list) = _GHOST(list);
     _TAIL(list) = _GHOST(list);
+#if defined(PARSEC_VERIF) && defined(PARSEC_VERIF_POINT)
+    /* verification yield point (locked sort only): the items are detached from the list while they are sorted */
+    if( list->atomic_lock ) PARSEC_VERIF_POINT(PARSEC_VERIF_K_READ, &list->ghost_element);
+#endif  /* defined(PARSEC_VERIF) */
 
     insize = 1;
 
